@@ -78,9 +78,11 @@ def _build(variant, quiet):
     out = os.path.join(BUILD, "%s-%s" % (variant, hsh))
     if os.path.exists(os.path.join(out, "OK")):
         return out
-    # prune stale builds of this variant
-    for d in glob.glob(os.path.join(BUILD, variant + "-*")):
-        shutil.rmtree(d, ignore_errors=True)
+    # prune stale builds of this variant (keep the few most recent: a concurrent check of another tree may be using one)
+    olds = sorted(glob.glob(os.path.join(BUILD, variant + "-*")), key=lambda d: os.path.getmtime(d), reverse=True)
+    for d in olds[4:]:
+        if time.time() - os.path.getmtime(d) > 3600:
+            shutil.rmtree(d, ignore_errors=True)
     os.makedirs(os.path.join(out, "obj"))
     t0 = time.time()
     inc = ["-I" + os.path.join(REPO, "SRC"), "-I" + HARN]
